@@ -2,8 +2,9 @@
 (***************************************************************************)
 (* C17: the property predicate.  A result (from `tmv svc`) carries the     *)
 (* pattern list and the ExecStart value that the real build_service_text    *)
-(* produced.  The value is decoded with SystemdExec!ExecDecode and must be  *)
-(* exactly the intended argument vector.  Shared by SvcCheck and SvcRanges. *)
+(* produced.  The value is decoded with SystemdExec!ExecDecode and must     *)
+(* carry every pattern as the value of an --exclude argument, with the      *)
+(* surrounding arguments intact.  Shared by SvcCheck and SvcRanges.         *)
 (***************************************************************************)
 EXTENDS SystemdExec, SequencesExt, TLC, Json, IOUtils
 CONSTANT KnownIds
@@ -64,14 +65,31 @@ UnitVerdict(r) ==
           \cup (IF \E i \in 1..Len(es): es[i].sec # ServiceSec THEN {"C17-ExecStart-outside-the-Service-section"} ELSE {})
           \cup (IF Len(es) = 1 /\ es[1].val # r.line THEN {"C17-ExecStart-line-is-not-the-command-systemd-reads"} ELSE {})
 
+\* The statement: every pattern comes back as the value of an --exclude argument, byte for byte, and the surrounding arguments --layout-file <file>,
+\* --only-if-keyboard and --dev-file /%I stay intact. It does not fix the order of the argument groups nor forbid other flags (--verbose), so the decoded
+\* vector is read the way the tool's own command line reads it: the words after the program (and the sub-command) are options; --exclude, --layout-file
+\* and --dev-file take the next word as their value.
+LayoutFile == Head6[4]
+LayoutPath == Head6[5]
+OnlyIfKbd == Head6[6]
+TakesValue == {Exclude, DevFile, LayoutFile}
+RECURSIVE ParseOpts(_, _)
+ParseOpts(argv, i) == IF i > Len(argv) THEN <<>>
+                      ELSE IF argv[i] \in TakesValue /\ i + 1 <= Len(argv) THEN <<[opt |-> argv[i], val |-> argv[i + 1], has |-> TRUE]>> \o ParseOpts(argv, i + 2)
+                      ELSE <<[opt |-> argv[i], val |-> <<>>, has |-> FALSE]>> \o ParseOpts(argv, i + 1)
+ValuesOf(os, o) == LET sel == SelectSeq(os, LAMBDA x: x.opt = o /\ x.has) IN [i \in 1..Len(sel) |-> sel[i].val]
 Verdict0(r) ==
   IF r.o # "ok" THEN {"C17-no-execstart-line-" \o r.o}
   ELSE LET d == ExecDecode(r.line) IN
        IF ~d.ok THEN {"C17-line-invalid"}
        ELSE IF d.argv = Expected(r.pats) THEN {}
-       ELSE IF Len(d.argv) # Len(Expected(r.pats)) THEN {"C17-argument-count"}
-       ELSE IF \E i \in 1..Len(d.argv): d.argv[i] # Expected(r.pats)[i] /\ Expected(r.pats)[i] \in {Exclude, DevFile} \cup ToSet(Head6) \cup {<<47, SpecMarker(73)>>}
-            THEN {"C17-surrounding-arguments"} ELSE {"C17-pattern-changed"}
+       ELSE LET os == ParseOpts(d.argv, 2)
+                ex == ValuesOf(os, Exclude)
+            IN (IF Len(ex) # Len(r.pats) THEN {"C17-argument-count"} ELSE IF ex # r.pats THEN {"C17-pattern-changed"} ELSE {})
+               \cup (IF d.argv = <<>> \/ ValuesOf(os, LayoutFile) # <<LayoutPath>> \/ ValuesOf(os, DevFile) # << <<47, SpecMarker(73)>> >>
+                         \/ ~(\E i \in 1..Len(os): os[i].opt = OnlyIfKbd /\ ~os[i].has)
+                         \/ (\E i \in 1..Len(os): os[i].opt \in TakesValue /\ ~os[i].has)
+                      THEN {"C17-surrounding-arguments"} ELSE {})
 
 Verdict(r) == Verdict0(r) \cup UnitVerdict(r)
 
